@@ -128,6 +128,51 @@ aggregate-traversal-count CTE starts at depth 1 and filters `depth >= lo` -/
 def generalDepths (lo hi : Nat) (W : Nat → List α) : List α := ((List.range (hi + 1)).filter (fun d => decide (lo ≤ d))).flatMap W
 def loweredDepths (lo hi : Nat) (W : Nat → List α) : List α := ((List.range (hi + 1)).filter (fun d => decide (1 ≤ d) && decide (lo ≤ d))).flatMap W
 
+-- ------------------------------------------------------------------ aggregate traversal count: what the planner's recognisers reject
+
+/-- `aggregateTraversalFinalProjection` (optimize/lowering_plan.go) as analysed: the final `RETURN` of the aggregate-traversal-count shape is
+accepted only if it is the part's only clause, is not DISTINCT / `*`, has no SKIP, HAS an ORDER BY and a LIMIT, returns one or two items that are
+the source (once, required) and the count alias (at most once) and nothing else, orders by exactly ONE key, NOT ascending — the translator
+hard-codes `order by count desc limit n` —, that key being the count alias (under either name), and the LIMIT is an integer literal. A dropped
+conjunct (e.g. `.Ascending`) lets a query through whose SQL the fast path gets wrong -/
+def aggFinalProjectionFacts : List String := [
+  "if queryPart == nil || len(queryPart.ReadingClauses) > 0 || len(queryPart.UpdatingClauses) > 0 || queryPart.Return == nil || queryPart.Return.Projection == nil",
+  "return aggregateTraversalFinalProjectionShape{}, false",
+  "projection := queryPart.Return.Projection",
+  "if projection.Distinct || projection.All || projection.Skip != nil || projection.Order == nil || projection.Limit == nil || len(projection.Items) < 1 || len(projection.Items) > 2",
+  "return aggregateTraversalFinalProjectionShape{}, false",
+  "if !ok",
+  "return aggregateTraversalFinalProjectionShape{}, false",
+  "if sourceSeen",
+  "return aggregateTraversalFinalProjectionShape{}, false",
+  "if countSeen",
+  "return aggregateTraversalFinalProjectionShape{}, false",
+  "return aggregateTraversalFinalProjectionShape{}, false",
+  "if !sourceSeen",
+  "return aggregateTraversalFinalProjectionShape{}, false",
+  "if len(projection.Order.Items) != 1 || projection.Order.Items[0] == nil || projection.Order.Items[0].Ascending",
+  "return aggregateTraversalFinalProjectionShape{}, false",
+  "if !ok || (orderSymbol != countAlias && orderSymbol != finalProjection.CountAlias)",
+  "return aggregateTraversalFinalProjectionShape{}, false",
+  "if !ok",
+  "return aggregateTraversalFinalProjectionShape{}, false",
+  "return finalProjection, true"]
+
+/-- `aggregateTraversalSourceMatch` as analysed: the source MATCH is a non-optional MATCH of ONE pattern that is a single named node WITHOUT an
+inline property map (`aggregateSourceWhere` reads the WHERE only, never the map), whose WHERE reads no other symbol -/
+def aggSourceMatchFacts : List String := [
+  "if readingClause == nil || readingClause.Match == nil",
+  "return nil, nil, \"\", false",
+  "match := readingClause.Match",
+  "if match.Optional || len(match.Pattern) != 1",
+  "return nil, nil, \"\", false",
+  "patternPart := match.Pattern[0]",
+  "if !ok || nodePattern == nil || nodePattern.Variable == nil || nodePattern.Variable.Symbol == \"\" || nodePattern.Properties != nil",
+  "return nil, nil, \"\", false",
+  "if dependency != nodePattern.Variable.Symbol",
+  "return nil, nil, \"\", false",
+  "return match, nodePattern, nodePattern.Variable.Symbol, true"]
+
 -- ------------------------------------------------------------------ limit pushdown: which tail WHERE the LIMIT may be moved below
 
 /-- `shortestPathLimitPushdownTransparentWhere` (translate/projection.go) as analysed — the helper behind `TailShape.whereTransparent`, the last
